@@ -32,6 +32,7 @@ type IfaceV struct {
 	IsNil Term
 	V     Val
 	Dyn   types.Type
+	Box   Term // identity of the box when the payload is not itself a reference (string, integer, struct, ...)
 }
 
 type FuncV struct {
